@@ -23,6 +23,7 @@ ADAPTATIONS = [
     'math.floor/ceil(symbolic int) -> the int itself (no realisation)',
     'symbolic str.strip/lstrip/rstrip(): per-character forking instead of realisation',
     'format(sym int, "0Nx") -> opaque placeholder (diagnostic messages only)',
+    're.Pattern.fullmatch of the two numeral patterns of qvm.machine on a symbolic string: hand-written scanner (validated against re)',
 ]
 
 _installed = False
@@ -299,6 +300,29 @@ def install():
     LS.lstrip = _mk_strip(LS.lstrip, True, False)
     LS.rstrip = _mk_strip(LS.rstrip, False, True)
 
+    # 10. re.Pattern.fullmatch for the two numeral patterns of
+    #     qvm.machine (INPUT / READ numbers): CrossHair turns a regex on a
+    #     symbolic string into a z3 regex query, which makes a 10-character
+    #     numeral intractable; a hand-written scanner decides the same
+    #     language by per-character comparisons.  Only truthiness of the
+    #     result is used by the callers.  Validated against re below.
+    import re as _re_mod
+    NUMERAL_RE = (r'[+-]?(\d+\.?\d*|\.\d+)([eEdD][+-]?\d+)?', _re_mod.ASCII)
+    INTEGRAL_RE = (r'[+-]?\d+', _re_mod.ASCII)
+
+    def _pattern_fullmatch(self, string, *a):
+        with NoTracing():
+            sym = isinstance(string, AnySymbolicStr)
+            key = (self.pattern, self.flags & _re_mod.ASCII)
+            known = key in ((NUMERAL_RE[0], _re_mod.ASCII),
+                            (INTEGRAL_RE[0], _re_mod.ASCII))
+            integral = self.pattern == INTEGRAL_RE[0]
+        if not sym or not known or a:
+            return self.fullmatch(string, *a)   # next layer
+        return scan_numeral(string, integral)
+
+    EXTRA[_re_mod.Pattern.fullmatch] = _pattern_fullmatch
+
     # layer EXTRA on top of CrossHair's own registrations
     from crosshair.tracers import COMPOSITE_TRACER
     orig_enter = core.Patched.__enter__
@@ -439,3 +463,55 @@ def _int_model_ref(val):
     if st not in (2, 3):
         return ('err', None)
     return ('ok', -ret if neg else ret)
+
+
+def scan_numeral(text, integral):
+    """True iff text is [+-]?digits (integral) or
+    [+-]?(digits[.digits*] | .digits)([eEdD][+-]?digits)? -- ASCII digits."""
+    n = len(text)
+    i = 0
+    if i < n and (text[i] == '+' or text[i] == '-'):
+        i += 1
+    nd = 0
+    while i < n and 48 <= ord(text[i]) <= 57:
+        i += 1
+        nd += 1
+    if integral:
+        return nd > 0 and i == n
+    if i < n and text[i] == '.':
+        i += 1
+        nf = 0
+        while i < n and 48 <= ord(text[i]) <= 57:
+            i += 1
+            nf += 1
+        if nd == 0 and nf == 0:
+            return False
+    elif nd == 0:
+        return False
+    if i < n and text[i] in 'eEdD':
+        i += 1
+        if i < n and (text[i] == '+' or text[i] == '-'):
+            i += 1
+        ne = 0
+        while i < n and 48 <= ord(text[i]) <= 57:
+            i += 1
+            ne += 1
+        if ne == 0:
+            return False
+    return i == n
+
+
+def validate_numeral_model():
+    import itertools
+    import re
+    pn = re.compile(r'[+-]?(\d+\.?\d*|\.\d+)([eEdD][+-]?\d+)?', re.ASCII)
+    pi = re.compile(r'[+-]?\d+', re.ASCII)
+    alpha = '1+-.eD x'
+    for n in range(0, 6):
+        for t in itertools.product(alpha, repeat=n):
+            s = ''.join(t)
+            if bool(pn.fullmatch(s)) != scan_numeral(s, False):
+                return 'numeral scanner disagrees with re on %r' % s
+            if bool(pi.fullmatch(s)) != scan_numeral(s, True):
+                return 'integral scanner disagrees with re on %r' % s
+    return None
